@@ -58,6 +58,11 @@ def leaf():
     d.append("ListStr ::= SEQUENCE (SIZE(0..4)) OF IA5String (SIZE(0..3))")
     d.append("SetOfInt ::= SET (SIZE(0..5)) OF INTEGER (-8..7)")
     d.append("ListColor ::= SEQUENCE OF ColorX")
+    # elements that occupy no bits at all: the element count is not bounded by the bits that follow
+    d.append("ListNull ::= SEQUENCE OF NULL")
+    d.append("ListOneR ::= SEQUENCE (SIZE(0..200)) OF INTEGER (5..5)")
+    d.append("SetOfNull ::= SET (SIZE(0..40)) OF NULL")
+    d.append("HoldNulls ::= SEQUENCE { marks SEQUENCE (SIZE(0..31)) OF NULL, flag BOOLEAN }")
     # X.691 14.1 / 23.4: indices follow the numeric values / the canonical tag order, not the text
     d.append("EnumOrd ::= ENUMERATED { hi(5), lo(2), mid(3) }")
     d.append("ChoiceOrd ::= CHOICE { z [5] BOOLEAN, a [2] INTEGER (0..7), m [3] NULL }")
